@@ -80,6 +80,7 @@ InjSet ==
   \cup {[NoInj EXCEPT !.fn = o, !.res = r] : o \in Bad, r \in {"plain", "gen"}}
   \cup {[NoInj EXCEPT !.ret = o, !.at = a] : o \in Bad, a \in Where}
   \cup {[NoInj EXCEPT !.ser = "exc"]}
+  \cup {[NoInj EXCEPT !.ser = "empty"]}      \* the function returns an EMPTY sequence where two values are declared
   \cup {[NoInj EXCEPT !.fn = "redirect"]}
   \* a raising method_context_closed / wsgi_close listener, on a success and on a fault
   \cup {[NoInj EXCEPT !.fin = f, !.fn = o] : f \in {"raise_closed", "raise_wsgiclose"}, o \in {"ok", "fault_client"}}
@@ -286,7 +287,7 @@ SerializeOk ==
 \* unserialisable return value, eager protocols.  The design fires
 \* method_exception_object (C14: "exactly when the call ends in a fault").
 SerializeFail ==
-  /\ pc = "serialize" /\ inj.ser = "exc" /\ outErr' = <<"Server">>
+  /\ pc = "serialize" /\ inj.ser # "ok" /\ outErr' = <<"Server">>
   /\ IF Dev("NoExcObjOnSerFail") THEN UNCHANGED ev ELSE Fire("method_exception_object")
   /\ pc' = "error" /\ status' = 200     \* resp_code was set before get_out_string; no property constrains it
   /\ UNCHANGED <<scen, fnRuns, fnOk, inErr, bound, sr, clen, handed, chunks, closed, wclosed, nread>>
